@@ -353,7 +353,7 @@ printf("\n");
               return -1;
             }
 
-            opcode = table_86000[n].opcode | ((num & 0x100) << 4) | bit;
+            opcode = table_86000[n].opcode | ((num & 0x100) >> 4) | bit;
 
             add_bin8(asm_context, opcode, IS_OPCODE);
             add_bin8(asm_context, num & 0xff, IS_OPCODE);
